@@ -133,6 +133,7 @@ long       machine_compare_slot (machine_t *a, machine_t *b, int slot);
 /* mask of the bits of one pixel that are compared for this slot */
 uint32_t   machine_pixmask (machine_t *m, int slot);
 int        machine_check_canaries (machine_t *m);
+void       machine_normalise_slot (machine_t *m, int slot);
 
 /* snapshot / restore of the pixels of one slot */
 uint8_t   *machine_snapshot (machine_t *m, int slot);   /* malloc'ed copy (harness memory) */
